@@ -70,9 +70,10 @@ def _intersect2d(p1, t1, p2, t2):
 def _intersect1d(p1, t1, p2, t2):
     """One-dimensional supermesh."""
     # find unique supermesh facets by combining nodes from both sides
-    p = np.concatenate((p1.flatten().round(decimals=10),
-                        p2.flatten().round(decimals=10)))
-    p = np.unique(p)
+    # nodes closer than 1e-10 of the extent of the meshes count as one; the
+    # supermesh keeps the coordinates as they are
+    p = np.sort(np.concatenate((p1.flatten(), p2.flatten())))
+    p = p[np.concatenate(([True], np.diff(p) > 1e-10 * (p[-1] - p[0])))]
     t = np.array([np.arange(len(p) - 1), np.arange(1, len(p))])
     p = np.array([p])
 
